@@ -16,6 +16,12 @@ template <typename T>
 [[nodiscard]] constexpr auto nextafter(T from, T to) -> T
 {
     using U             = etl::conditional_t<sizeof(T) == 4U, etl::uint32_t, etl::uint64_t>;
+    if (from != from) {
+        return from; // NaN
+    }
+    if (to != to) {
+        return to; // NaN
+    }
     auto const fromBits = etl::bit_cast<U>(from);
     auto const toBits   = etl::bit_cast<U>(to);
     if (toBits == fromBits) {
